@@ -6,12 +6,16 @@ from common import cstr, cbool, clist, log, cexn
 TRUSTED_BASE = [
     'PARTIAL BY NATURE: which Python object is a text / binary stream (isinstance against the io ABCs) and the codecs (UTF-8, gzip) are runtime behaviour; '
     'the theorems are about the decision table and hold for any codecs satisfying decode(encode c) = c and gunzip(gzip b) = b (hypotheses)',
-    'the full product {8 source kinds} x {4 readers} x {ASCII, non-ASCII} and {4 target kinds} x {2 writers}, and 7 non-stream argument types, is EXECUTED on the '
-    'implementation on every run and compared with the plain-path result (exhaustive for the property\'s quantifier)',
+    'the full product {11 source kinds} x {4 readers} x {ASCII, non-ASCII} x {LF, CR LF, CR} and {4 target kinds} x {2 writers}, and 7 non-stream argument types, is EXECUTED on the '
+    'implementation on every run and compared with the plain-path result (exhaustive for the property\'s quantifier); the products run a second time in a process whose locale prefers ASCII',
+    'the text layer (encoding selection, newline mode) of each handle the helper creates is observed behaviourally (handle.encoding under the default and an explicit latin-1 request; '
+    'text delivered / emitted for a probe) and compared with the model; the write-side theorem is stated for os.linesep = LF (this platform); where os.linesep is CR LF the plain-path and '
+    '.gz-path writers differ (Io.Proofs.write_newline_platform_caveat) - not executable here',
+    'a caller\'s own text stream is passed through untouched: its decoding and newline mode are the caller\'s (the exploration opens text streams the default way)',
     'URL sources are not opened (no network); looks_like_url is compared as a string function',
 ]
 ASSUMPTIONS = ['text content is UTF-8 encodable; a ".gz" name holds gzip data and other names hold plain data']
-THEOREM = 'C16_read_uniform / C16_write_uniform / C16_suffix_and_url_tests'
+THEOREM = 'C16_read_uniform / C16_read_uniform_all_kinds / C16_line_endings / C16_layers / C16_write_uniform / C16_suffix_and_url_tests'
 
 HEADER = '''From Coq Require Import String List.
 From Hpotk Require Import Base.Result Base.Emit Io.Model Corr.C16.
@@ -48,10 +52,28 @@ def strings(rng):
 def run(chk):
     strs = strings(chk.rng)
     obs = chk.run_impl('C16', {'workdir': str(chk.work), 'strings': strs})
+    # the same products in a process whose locale prefers a non-UTF-8 encoding ("configurations")
+    cfg = chk.run_impl('C16', {'workdir': str(chk.work), 'strings': [], 'config': 'LC_ALL=C, no UTF-8 mode'},
+                       extra_env={'LC_ALL': 'C', 'LANG': 'C', 'PYTHONCOERCECLOCALE': '0', 'PYTHONUTF8': '0'})
+    chk.extra['second_configuration'] = {'env': cfg['config'], 'preferred_encoding': cfg['preferred_encoding']}
+    for r in cfg['readers'] + cfg['writers']:
+        r['config'] = cfg['config']
+    obs['readers'] += cfg['readers']
+    obs['writers'] += cfg['writers']
     terms, meta = [], []
     for d in obs['decisions']:
         terms.append(f'({"IORead" if d["mode"] == "read" else "IOWrite"} {carg(d["arg"])} {cobs(d["obs"])})')
         meta.append(('decision', d))
+        lay = d.get('layer')
+        if lay is not None:
+            chk.count('layer:' + d['mode'])
+            if 'err' in lay:
+                terms.append(f'(IORLayer AOther true "" "")')         # could not be observed: never equals the model
+            elif d['mode'] == 'read':
+                terms.append(f'(IORLayer {carg(d["arg"])} {cbool(lay["enc_follows"])} {cstr(lay["raw"])} {cstr(lay["got"])})')
+            else:
+                terms.append(f'(IOWLayer {carg(d["arg"])} {cbool(lay["enc_follows"])} {cstr(lay["linesep"])} {cstr(lay["txt"])} {cstr(lay["got"])})')
+            meta.append(('layer', d))
     for s, b in obs['url']:
         terms.append(f'(IOUrl {cstr(s)} {cbool(b)})')
         meta.append(('looks_like_url', [s, b]))
@@ -61,7 +83,8 @@ def run(chk):
     failing = chk.coq_failing(HEADER, terms, 'check_iocase', shard=400)
     problems = []
     for i in failing:
-        problems.append(('C16:' + meta[i][0] + ':' + (meta[i][1]['mode'] + ':' + meta[i][1]['arg'][0] if meta[i][0] == 'decision' else 'string'), meta[i][1]))
+        problems.append(('C16:' + meta[i][0] + ':' + (meta[i][1]['mode'] + ':' + meta[i][1]['arg'][0] + (':' + meta[i][1]['obs'] if meta[i][0] == 'layer' else '')
+                                                      if meta[i][0] in ('decision', 'layer') else 'string'), meta[i][1]))
     for r in obs['readers']:
         chk.count('reader:' + r['reader'])
         chk.count('source:' + r['kind'].split(':')[0])
@@ -69,14 +92,15 @@ def run(chk):
             if r['err'] != 'ValueError':
                 problems.append(('C16:reader:other-argument', r))
         elif not r.get('same_as_path'):
-            problems.append(('C16:reader:' + ('stream' if 'path' not in r['kind'] else r['kind']) + (':non-utf8-text' if 'utf16' in r['kind'] else ''), r))
+            problems.append(('C16:reader:' + ('stream' if 'path' not in r['kind'] else r['kind'].replace('-multimember', '')) + (':non-utf8-text' if 'utf16' in r['kind'] else '')
+                             + (':' + r['eol'] if r.get('eol', 'lf') != 'lf' else '') + (':second-configuration' if r.get('config') else ''), r))
     for w in obs['writers']:
         chk.count('writer:' + w['writer'])
         if w['kind'].startswith('other:'):
             if w['err'] != 'ValueError':
                 problems.append(('C16:writer:other-argument', w))
         elif not w.get('same_as_path'):
-            problems.append(('C16:writer:' + ('stream' if 'stream' in w['kind'] else w['kind']), w))
+            problems.append(('C16:writer:' + ('stream' if 'stream' in w['kind'] else w['kind']) + (':second-configuration' if w.get('config') else ''), w))
     chk.evaluations = len(terms) + len(obs['readers']) + len(obs['writers'])
     chk.traces = len(obs['readers']) + len(obs['writers'])
     for j, (kind, m) in enumerate(meta):
@@ -86,11 +110,12 @@ def run(chk):
     chk.exhaustive = True
     chk.extra['reader_runs'] = len(obs['readers'])
     chk.extra['writer_runs'] = len(obs['writers'])
-    chk.rule = ('EXHAUSTIVE product: readers {load_minimal_ontology, load_ontology, SimpleHpoaDiseaseLoader.load, SimilarityContainer.from_csv} x sources {path, .gz path, open text '
-                'file (UTF-8 and UTF-16), open binary file, StringIO, BytesIO, gzip text stream, gzip binary stream} x {ASCII, non-ASCII content}: result equal to the plain-path result; writers '
+    chk.rule = ('EXHAUSTIVE product: readers {load_minimal_ontology, load_ontology, SimpleHpoaDiseaseLoader.load, SimilarityContainer.from_csv} x sources {path, .gz path (single- and multi-member gzip), open text '
+                'file (UTF-8 and UTF-16), open binary file, StringIO, BytesIO, gzip text stream, gzip binary stream} x {ASCII, non-ASCII content} x {LF, CR LF, CR line endings}: result equal to the plain-path result; writers '
                 '{SimilarityContainer.to_csv, AnnotationIcContainer.to_csv} x targets {path, .gz path, open text file stream, open binary file stream}: content (timestamp removed) '
-                'equal; 7 non-stream argument types must raise ValueError; the decision taken by the helper for 13 file names and 13 stream objects and looks_like_url / '
-                'looks_gzipped on 170 strings are compared with the model inside Coq')
+                'equal; both products again in a second process configuration (LC_ALL=C without UTF-8 mode: the locale prefers ASCII); 7 non-stream argument types must raise ValueError; the decision taken by '
+                'the helper for 13 file names and 13 stream objects, the text layer of every handle it creates (its encoding follows the `encoding` parameter - default and latin-1 - and the text delivered / '
+                'emitted for a probe mixing LF, CR LF and CR) and looks_like_url / looks_gzipped on 170 strings are compared with the model inside Coq')
     seen = {}
     for sig, detail in problems:
         if sig in seen:
